@@ -27,6 +27,7 @@ structure DS where
   gated : Bool := false      -- … and is held at pre_start's await point
   joined : Bool := false
   fine : Option Nat := none  -- index of the thread of the stepping drain
+  manual : Bool := false     -- flavour `thr`: the start thread moves only on `tbegin` / `sstep`
   prefixKey : String := ""
   opsSoFar : List String := []  -- the ops so far (for `undisturbed`)
   -- from the implementation's own answers
@@ -56,7 +57,7 @@ def startSteps (c : Cfg) (g : G) (n : Nat) : G := (List.replicate n Tid.start).f
 
 /-- the start thread / the actor's task runs until idle, dead or parked at the pre_start gate -/
 def settle (ds : DS) : DS :=
-  if !ds.begun then ds
+  if !ds.begun || ds.manual then ds
   else if ds.gated then
     -- up to pre_start; the (biased) select lets a pending kill win there
     let upTo : Nat := match ds.g.sh.pc with
@@ -122,6 +123,30 @@ def exec (ds : DS) (w : List String) : Option (DS × String) :=
         | _, _ =>
           let err := markerEligible ds.g.sh && !ds.g.sh.portsOpen
           some ({ ds with g := step ds.c ds.g (.t i), fine := none }, if err then "done=err" else "done=ok")
+  -- flavour `thr`: the start thread is parked at `status.publish` (status checked, `Starting` not yet
+  -- published) …
+  | ["tbegin"] =>
+    if ds.begun then some (ds, "bad-op")
+    else some ({ ds with begun := true, g := step ds.c ds.g .start }, "at=status.publish")
+  -- … and advanced to `tree.link` (pc `linkTL` / `link`) or to the end of the start; the `sstep` that
+  -- completes the start ends the case: an actor nobody drained is drained, then everything runs out
+  | ["sstep"] =>
+    if !ds.begun || ds.joined then some (ds, "bad-op")
+    else
+      let rec go (fuel : Nat) (g : G) : G :=
+        match fuel with
+        | 0 => g
+        | f + 1 =>
+          if g.sh.pc == .linkTL || g.sh.pc == .link || g.sh.pc == .loop || !g.sh.pc.alive then g
+          else go f (step ds.c g .start)
+      let g1 := go 12 (step ds.c ds.g .start)
+      if g1.sh.pc == .linkTL || g1.sh.pc == .link then some ({ ds with g := g1 }, "at=tree.link")
+      else
+        let res := startResult { ds with g := g1 }
+        let ds1 := { ds with g := g1, joined := true }
+        let ds2 := if g1.sh.pc.alive && !g1.sh.closed then doReq ds1 0 .drain 3 else ds1
+        let g3 := startSteps ds.c ds2.g (measure ds2.g.sh)
+        some ({ ds2 with g := g3 }, "done=" ++ res)
   | ["enter"] =>
     if ds.begun then some (ds, "enter=already")
     else
@@ -155,7 +180,8 @@ def undisturbedWords (ws : List (List String)) : Bool :=
 def step (ds : DS) (op impl : String) : DS × StepOut :=
   match words op with
   | "case" :: l :: fl =>
-    ({ c := { fixed := true, linked := l == "1", tl := fl.contains "tl" }, prefixKey := " ".intercalate fl },
+    ({ c := { fixed := true, linked := l == "1", tl := fl.contains "tl" }, prefixKey := " ".intercalate fl,
+       manual := fl.contains "thr" },
      { model := "ok" })
   | w =>
     match exec ds w with
@@ -175,7 +201,7 @@ def step (ds : DS) (op impl : String) : DS × StepOut :=
         else ds'
       let ws := ds.opsSoFar ++ [op]
       let undist := undisturbedWords (ws.map words)
-      let started := ws.any (fun o => o == "poll ok" || o == "leave ok")
+      let started := ws.any (fun o => o == "poll ok" || o == "leave ok") || (w == ["sstep"] && implRes.startsWith "done=")
       let orc :=
         (match parseH impl, field impl "st=", field impl "r=" with
          | some h, some st, some r =>
@@ -186,7 +212,7 @@ def step (ds : DS) (op impl : String) : DS × StepOut :=
       let key := ds.prefixKey ++ "|" ++ op
       ({ ds1 with opsSoFar := ws, prefixKey := key },
        { model := s!"{res} {snap ds1}", oracle := orc,
-         nontrivial := w == ["dstep"] || w == ["drain"] || w == ["dbegin"] || ds.g.sh.status < 2,
+         nontrivial := w == ["dstep"] || w == ["drain"] || w == ["dbegin"] || w == ["sstep"] || ds.g.sh.status < 2,
          key := some (key ++ " => " ++ impl) })
 
 def run (ops impl : Array String) : IO Tally := replay ({} : DS) step ops impl
